@@ -103,6 +103,7 @@ type hcScenario struct {
 	Discovered bool `json:"discovered"`
 	CacheSize  int       `json:"cache_size"`
 	SplitPaths bool      `json:"split_paths"`
+	HdrPath    bool      `json:"hdr_path"` // with SplitPaths: the /up entry also requires the header "X-Small: 1" (requests without it fall through to the prefix entry)
 	Reload     *hcReload `json:"reload"`
 }
 
@@ -225,10 +226,19 @@ type hcChain struct {
 
 // reqLimit is the effective clientMaxBodySize for an exchange under the current generation.
 func (c *hcChain) reqLimit(ex *hcExchange) int64 {
-	if c.sc.SplitPaths && ex.Path != "/up" {
+	if c.sc.SplitPaths && (ex.Path != "/up" || (c.sc.HdrPath && !hcHasHeader(ex, "X-Small", "1"))) {
 		return hcEffective(0, c.lim.srv)
 	}
 	return hcEffective(c.lim.path, c.lim.srv)
+}
+
+func hcHasHeader(ex *hcExchange, k, v string) bool {
+	for _, kv := range ex.Hdr {
+		if http.CanonicalHeaderKey(kv[0]) == k && kv[1] == v {
+			return true
+		}
+	}
+	return false
 }
 
 // respLimit is the effective serverMaxBodySize under the current generation.
@@ -315,7 +325,11 @@ func (c *hcChain) serverYAML(lim hcLimits) string {
 		syaml += fmt.Sprintf("cacheSize: %d\n", sc.CacheSize)
 	}
 	if sc.SplitPaths {
-		return syaml + "rules:\n- paths:\n  - path: /up\n    backend: pipe\n" + hcYAMLInt("    clientMaxBodySize", lim.path) +
+		hdr := ""
+		if sc.HdrPath {
+			hdr = "    headers:\n    - key: X-Small\n      values: [\"1\"]\n"
+		}
+		return syaml + "rules:\n- paths:\n  - path: /up\n    backend: pipe\n" + hdr + hcYAMLInt("    clientMaxBodySize", lim.path) +
 			"  - pathPrefix: /\n    backend: pipe\n"
 	}
 	return syaml + "rules:\n- paths:\n  - pathPrefix: /\n    backend: pipe\n" + hcYAMLInt("    clientMaxBodySize", lim.path)
